@@ -11,28 +11,28 @@ ALL = [f"C{i:02d}" for i in range(1, 21)]
 CHECKS = {
     "C10": (
         "exploration",
-        "history + executable sequential model: every batch result compared bit for bit with one-at-a-time evaluation under real dask schedulers, an adversarial executor (seeded and enumerated start/release orders), forced partition sizes, sys.monitoring yield injection with the shared kernel object frozen, and per-position failpoints",
-        "Observed schedules: synchronous, threads 1/2/8/16, processes 2[/4]; partition sizes {1,2,3,7,100,n,n+1}; 60..300 adversarial schedules incl. all P! start orders for P=4[,5]; 12..240 yield-injected 4-thread runs (tens of thousands of forced thread switches at hundreds of source lines); a failing event at every position of 25 and at 5 positions of 250 under each scheduler. The quantifier is over all schedules: a finite set is explored.",
+        "history + executable sequential model: every batch result compared bit for bit with one-at-a-time evaluation under real dask schedulers, an adversarial executor (seeded and enumerated start/release orders), forced partition sizes, sys.monitoring yield injection with the shared kernel object frozen, per-position failpoints cycling through 16 exception types (StopIteration at every position), a kernel object reconfigured after construction, and the shipped pressure-map cloud model as the cloud function with the one-at-a-time model evaluated in reverse order",
+        "Observed schedules: synchronous, threads 1/2/8/16, processes 2[/4]; partition sizes {1,2,3,7,100,n,n+1}; 60..300 adversarial schedules incl. all P! start orders for P=4[,5]; 12..240 yield-injected 4-thread runs (tens of thousands of forced thread switches at hundreds of source lines); a failing event at every position of 25 and at 5 positions of 250 under each scheduler; every batch uses a cloud function whose top depends on the event (incl. NaN tops); an event that raises when evaluated alone must make the batch raise. The quantifier is over all schedules: a finite set is explored.",
         "Trusted: dask's scheduler hooks (pool=, num_workers), CPython's sys.monitoring. TSan/helgrind are noise on CPython and are not used; Python-level races are attacked by forced GIL hand-offs and a frozen shared object.",
         "5 (C10)",
     ),
     "C11": (
         "exploration",
-        "metamorphic monitors (permutation, split, repeat incl. reused buffer objects, single-event rows) and input-digest monitors on 17 real stage entry points, bit for bit, with explicit random numbers or a constant RNG stub",
+        "metamorphic monitors (permutation, split, repeat incl. reused buffer objects, single-event rows) and input-digest monitors on 19 real stage entry points (incl. an energy scan in 8192-aligned blocks and an all-in-window optical batch with 0..2pi longitudes), plus every plot-taking stage with and without its diagnostic plots, bit for bit, with explicit random numbers or a constant RNG stub",
         "Observed executions over batch sizes {1,2,17,8191,8192,8193,20000} (kernel stages {1,2,17,101[,250]}), every split point for n<=17, seeded permutations through the same buffer objects refilled in place and through fresh arrays, 2..5 repeats on one object; ~4e6 event evaluations per quick run.",
         "Trusted: numpy's elementwise loops being position-independent on this machine (observed). Empty halves are not demanded. Stages without explicit random numbers are driven with a constant RNG stub (no draw order assumed).",
         "5 (C11)",
     ),
     "C13": (
         "exploration",
-        "reference-model monitor with independent astrometry (ICRS/GCRS->ITRS directions dotted with the geodetic normal, topocentric Sun/Moon, phase angle from vectors, coarse GMST formula) and guard bands; explicit ray-sphere triangle; per-instant and monotonicity monitors on the dark-sky cut; channel application through the real mcintegral",
-        "Observed executions over 96..480 seeded target configurations (sources on the sphere incl. poles, dates 2020-2026, T 10 s..30 d, N 1..2000 incl. 49 and 103, detector incl. poles and the date line, cut thresholds default / always / never / exactly 0 / random): every instant judged outside the guard bands; numbers judged are in the evidence.",
+        "reference-model monitor with independent astrometry (ICRS/GCRS->ITRS directions dotted with the geodetic normal, topocentric Sun/Moon, phase angle from vectors, coarse GMST formula) and guard bands; explicit ray-sphere triangle; per-instant and monotonicity monitors on the dark-sky cut; channel application through the real mcintegral at trigger thresholds 10, 0 and -1; instant-grid sweep over every N",
+        "Observed executions over 96..480 seeded target configurations (sources on the sphere incl. poles, dates 2020-2026, T 10 s..30 d, N 1..2000 incl. 49 and 103 for the full monitors and every N in 1..1500 (12000 thorough) x 7 durations for the instant grid, detector incl. poles and longitudes in any convention (-2pi..2pi), cut thresholds default / always / never / exactly 0 / random): every instant judged outside the guard bands; numbers judged are in the evidence.",
         "Trusted: astropy's transformations, ephemerides and IERS tables. Guard bands 1e-3 deg (source), 0.01 deg (Sun, Moon), 1e-6 deg (phase): instants inside are not judged.",
         "5 (C13)",
     ),
     "C14": (
         "exploration",
-        "monitored full runs of the real compute(): byte comparison of whole tables (frozen simTime) across schedulers and channel switches, structural monitor re-evaluating cross-stage relations on the stored columns, zero-survivor runs",
+        "monitored full runs of the real compute(): byte comparison of whole tables (frozen simTime) across schedulers and channel switches, structural monitor re-evaluating cross-stage relations on the stored columns, zero-survivor runs, interleaved configurations in one process, and the same run with every registered diagnostic plot requested",
         "12 (quick) / 36 (thorough) configurations of the mode x spectrum x cloud x altitude cross product x 2..3 seeds, each run under synchronous, threads-8 with partition size 10, processes-2 or an adversarial executor, repeated, radio-off and optical-off; plus 4 zero-survivor cases x 3 channel variants.",
         "Trusted: dask, astropy tables. The source-built stepping function is used in every process (spawned workers re-import the harness main module).",
         "5 (C14)",
@@ -46,7 +46,7 @@ CHECKS = {
     ),
     "C16": (
         "exploration",
-        "round-trip monitor on real Table.write/read of results tables (synthetic on results_table.init and from real runs), header completeness incl. values, reconstruction compared on the fields config_from_fits is observed to fill; mechanism-keyed classifier for the open header-float finding",
+        "round-trip monitor on real Table.write/read of results tables (synthetic on results_table.init and from real runs), header completeness incl. values, reconstruction compared on the fields config_from_fits is observed to fill; numpy scalars left in the configuration, runs without surviving trajectories, the command-line path incl. -w compared with an in-process compute(); mechanism-keyed classifier for the open header-float finding",
         "120..2000 synthetic tables (all stored dtypes incl. Time and 2-D fields; one third with 17-digit floats, two thirds with short-text floats that must be exact; reused configuration objects) plus 4..24 tables from real runs; every column, header value, configuration entry and reconstructed field compared.",
         "Trusted: astropy.io.fits. Float header differences are accepted only as KNOWN-FINDING fits-header:float-text-exceeds-card and only when the card-cutting rule predicts the exact read-back value (or a write failure cut inside the exponent).",
         "5 (C16)",
@@ -61,28 +61,28 @@ CHECKS = {
     "C20": (
         "exploration",
         "two-run relations on the real EASRadio + calculate_snr (identically seeded), finiteness/range monitors on events from the real upstream stages with hostile decay numbers, exhaustive enumeration of all 13 695 aligned bands against an independent evaluation of the parametrisation, SNR re-derived from the formulas",
-        "5 detector altitudes (ionosphere branch at 90 km) x band/TEC variants x 300..2500 events incl. lenDec in {0, 1e-17, ...}, decays at closest approach, altDec in {0, 10, 10+ulp}; energy factors, antenna counts, permutations incl. a 20000..70001-event batch; every band enumerated.",
+        "5 detector altitudes (ionosphere branch at 90 km) x band/TEC variants x 300..2500 events incl. lenDec in {0, 1e-17, ...}, decays at closest approach, altDec in {0, 10, 10+ulp} and degenerate out-of-range decays (at the detector altitude, +-inf, below ground on a grazing track); energy factors, antenna counts, permutations incl. a 20000..70001-event batch; every band enumerated.",
         "Trusted: numpy, the shipped parameter tables. Antenna gain positive.",
         "5 (C20)",
     ),
     "C01": (
         "exploration",
-        "runtime oracle on the real throw/mcintegral: finite-difference 4x4 Jacobian of explicit 3-D vectors (importance identity), one-hot observation of the weight mcintegral applies, scrambled-Sobol quadrature (truncated and full) against an independently integrated aperture",
+        "runtime oracle on the real throw/mcintegral: finite-difference 4x4 Jacobian of explicit 3-D vectors (importance identity), one-hot observation of the weight mcintegral applies, scrambled-Sobol quadrature (truncated and full) against an independently integrated aperture; one node array shared across a scan of configurations; header RMCINTGO/OMCINTGO of full two-channel runs against the aperture; configurations built through the validating constructor, oracles fed the requested numbers",
         "Observed executions over 12 (quick) / 64 (thorough) configurations spanning altitude 1..40000 km, limb angle 1e-3..0.999 of the horizon angle, cone 0.1..89 deg, azimuth 1..360 deg: 4096..20000 interior points each judged pointwise (2e-5), weights observed through the real mcintegral, region edges, and quadrature convergence. Unbiasedness is a statement about a whole measure; what is observed is the integrand identity and region at sampled points plus convergence of one quadrature family.",
         "Trusted: numpy, scipy.integrate.quad, scipy.stats.qmc. Earth radius = astropy R_earth. A defect confined to a set the workload never samples is invisible.",
         "5 (C01)",
     ),
     "C02": (
         "exploration",
-        "reference-model monitor with explicit 3-D vectors on every thrown event of the closed unit cube; closed-form inverse-CDF residual in 50-digit decimal; position oracle along kept trajectories incl. after a second throw on the same object",
+        "reference-model monitor with explicit 3-D vectors on every thrown event of the closed unit cube; closed-form inverse-CDF residual in 50-digit decimal; position oracle along kept trajectories incl. after a second throw on the same object; history monitor (same-size throw on a used object equals the fresh object's, every array, bit for bit)",
         "Observed executions of RegionGeom.throw on a closed-cube boundary catalogue (all face/edge/vertex combinations, denormals, 1-2^-53, u4 ladders) plus 4e4..1.5e5 interior points for 12..160 detector positions incl. poles and the date line; every event judged for range, inverse-CDF image, ground spot, emergence angle and keep mask; positions along trajectories at 5 distances.",
         "Trusted: numpy, python decimal. Inverse-CDF tolerance 1e-10 of the CDF range plus 32 ulps of l (the property gives no figure; the trigonometric solver carries tens of ulps). Altitude along a trajectory is observable only through the ground offset.",
         "5 (C02)",
     ),
     "C03": (
         "exploration",
-        "independent re-evaluation of the documented estimator (math.fsum loops, own derivation of the sampling normalisation) from the event columns; metamorphic monitors (permutation, threshold ladder, bound, call history); monitored full compute() runs recomputing header keywords and per-event columns from the final table",
-        "Direct: the real mcintegral of both geometry classes on generated arrays incl. trigger == threshold, cosines on the cone edge, decay exactly at / beyond the path length, both methods, dark-sky cut on/off (1e5 events per run). Full runs: 4 (quick) / 12 (thorough) monitored simulations in both modes and channels.",
+        "independent re-evaluation of the documented estimator (math.fsum loops, own derivation of the sampling normalisation) from the event columns; metamorphic monitors (permutation, threshold ladder, bound, call history, second throw); both channels evaluated on the same arrays with the oracle reading pristine copies and an inputs-unchanged monitor; single-survivor cases; monitored full compute() runs recomputing header keywords and per-event columns from the final table",
+        "Direct: the real mcintegral of both geometry classes on generated arrays incl. trigger == threshold, cosines on the cone edge, decay exactly at / beyond the path length, both methods, dark-sky cut on/off (1e5 events per run). Full runs: 5 (quick) / 13 (thorough) monitored simulations in both modes and channels incl. the 1/E spectrum.",
         "Trusted: numpy; the dark-sky mask itself is taken from the real sun_moon_cut (C13 decides its correctness). Sums compared at 1e-9 relative plus a stated conditioning allowance; counts exactly.",
         "5 (C03)",
     ),
@@ -95,28 +95,28 @@ CHECKS = {
     ),
     "C08": (
         "exploration",
-        "probes on CphotAng.__call__/run recording what EAS.__call__ hands to the kernel and gets back; recomputation of PEs and the effective angle; two-run inverse-square relation with independent straight-line distances",
+        "probes on CphotAng.__call__/run recording what EAS.__call__ hands to the kernel and gets back; recomputation of PEs and the effective angle; two-run inverse-square relation with independent straight-line distances (detectors from 5 km to 36000 km, incl. detectors below some of the decays); call history on one EAS object",
         "Observed executions of the real EAS.__call__ for 3..5 detector altitudes x 3 optical settings with hostile decay altitudes (-inf, -5e-324, 0, 20, 20+ulp, +inf ...), thresholds giving PE/threshold exactly 2 and one ulp either side, and 150..1500 two-detector kernel runs.",
-        "Trusted: numpy. Squared-ratio tolerance 1e-3 (float32 viewing angle). Synchronous scheduler (schedules are C10's subject).",
+        "Trusted: numpy. Squared-ratio tolerance 1e-3 (float32 viewing angle); for detectors below 33 km plus the stated float32 conditioning eps32 (R+z)/d of a short shower-detector distance. Synchronous scheduler (schedules are C10's subject).",
         "5 (C08)",
     ),
     "C09": (
         "exploration",
-        "kernel run under harness cloud functions placed relative to the segment altitudes the kernel itself reports (valid_arrays probe): bit-identity / exact zero / reference-with-cloud / piecewise constancy; cloud-model monitors with a neighbour-node oracle over all 12 maps and an independent atmosphere",
-        "Observed executions: 60..480 events x ~27 cloud tops x two precisions; 12 monthly maps x 3400..40000 locations (radians) incl. poles, the +-180 deg seam and locations produced by the real geometry stage.",
+        "kernel run under harness cloud functions placed relative to the segment altitudes the kernel itself reports (valid_arrays probe): bit-identity / exact zero / reference-with-cloud / piecewise constancy; cloud-model monitors with a neighbour-node oracle over all 12 maps and an independent atmosphere; full runs in both modes observing which sites the cloud model is asked for",
+        "Observed executions: 60..480 events x ~27 cloud tops x two precisions; 12 monthly maps x 3400..40000 locations (radians) incl. poles, the +-180 deg seam, locations produced by the real geometry stage and longitudes in the 0..360 deg / below -180 deg conventions (what target mode passes on from the configuration).",
         "Trusted: astropy.io.fits for the maps, atm_ref. A tie (cloud top exactly on a segment altitude) is accepted either way. float32 absolute accuracy for cloud tops above 25 km is observed only.",
         "5 (C09)",
     ),
     "C04": (
         "exploration",
-        "reference-model monitor on the real sampler: forward CDF residual and own inversion from an independent explicit-neighbour table model, RNG spy/stub for explicit-vs-internal equivalence, rejection and monotonicity monitors",
-        "Observed executions of Taus.tau_energy and grid_cdf_sampler on ~1e6 (logE, beta, u) per run over all three shipped table versions: batches of size 1..20000 (around the 8192 iterator buffer) in every mix of in-table / below-min / above-max angles, nodes, cell centres and edges, hostile and exact-node u; every event is judged against F(z)=u (1e-12). Held-on-observed over a continuous input space.",
-        "Trusted: h5py's reading of the shipped tables, numpy. u is kept 2e-15 inside the blended row's range (the code's blend may differ from the oracle's by a few ulps). 'Negligible' is read as 0 < z <= 1e-5.",
+        "reference-model monitor on the real sampler: forward CDF residual and own inversion from an independent explicit-neighbour table model, RNG spy/stub for explicit-vs-internal equivalence, rejection and monotonicity monitors; the pipeline order (exit probability then energy on the same arrays, Taus.__call__) against the stand-alone call; diagnostic plots as observers",
+        "Observed executions of Taus.tau_energy and grid_cdf_sampler on ~1e6 (logE, beta, u) per run over all three shipped table versions: batches of size 1..20000 (around the 8192 iterator buffer) in every mix of in-table / below-min / above-max angles, nodes, cell centres and edges, energies scattered / one tabulated value / blocks of constant values (8192-aligned and not) / sorted, u over the whole of [0, 1-2^-53] incl. 0 and exact node values; every event is judged against F(z)=u (1e-12). Held-on-observed over a continuous input space.",
+        "Trusted: h5py's reading of the shipped tables, numpy. At the two ends of a CDF row the inverse is the whole end plateau. 'Negligible' is read as 0 < z <= 1e-5.",
         "5 (C04)",
     ),
     "C05": (
         "exploration",
-        "reference-model monitor (own log-bilinear interpolation with explicit neighbours), exhaustive node enumeration, call-history monitor comparing a long-lived object with fresh objects and digesting its table after every call",
+        "reference-model monitor (own log-bilinear interpolation with explicit neighbours), exhaustive node enumeration, batch-layout monitor (one off-node energy, one tabulated energy, blocks, sorted, single events), call-history monitor comparing a long-lived object with fresh objects and digesting its table after every call",
         "All 25x51 nodes of all three exit-probability tables are enumerated; 5e4..1e6 random/edge points per table are compared with the independent model (1e-12) and the surrounding-node bounds; clamps, rejection of out-of-table energies, and a scripted history (random batches plus few-key mono-energetic A,B,A,... sequences) on one object versus fresh objects, bit for bit.",
         "Trusted: h5py, numpy log10/pow. The above-maximum value is only required to be one constant within 0.5 % of 1.19e-7 (the property names it to three digits).",
         "5 (C05)",
@@ -124,27 +124,27 @@ CHECKS = {
     "C07": (
         "exploration",
         "icontract post-conditions on the real Taus.__call__ and EAS.altDec recomputing every output with independent constants and explicit-vector geometry; RNG spy (internal draws) and hostile RNG stub; monotonicity ladders",
-        "Observed executions over 3 table versions x 3 etau_frac x hostile/real generators (1e5..2e6 events): every event's Lorentz factor, speed, shower energy, decay length and decay altitude recomputed independently (1e-12; altitude 1e-9), including exactly 42 deg, logE exactly 6, u = 5e-324 and u = 1, and the smallest energies the tables can produce.",
+        "Observed executions over 3 table versions x 3 etau_frac x hostile/real generators (1e5..2e6 events): every event's Lorentz factor, speed, shower energy, decay length and decay altitude recomputed independently (1e-12; altitude 1e-9), including exactly 42 deg, logE exactly 6, u = 0 (infinite decay length), 5e-324, 1-2^-53 and 1; the real call order on the same arrays with pristine copies for the oracle; and the smallest energies the tables can produce.",
         "Trusted: numpy; constants m_tau=1.77686 GeV, c=299792.458 km/s, tau0=2.903e-13 s; Earth radius astropy R_earth. Speed exactly 1.0 accepted only where 1/gamma^2 < 2^-53.",
         "5 (C07)",
     ),
     "C12": (
         "exploration",
-        "icontract post-conditions on the real Spectra.__call__ (bounds, normalisation product) plus an exact inverse-CDF oracle in 50-digit decimal; uniform numbers supplied by a hostile RNG stub or observed by an RNG spy",
+        "icontract post-conditions on the real Spectra.__call__ (bounds, normalisation product) plus an exact inverse-CDF oracle in 50-digit decimal; history monitor on edited / copied spectrum objects; uniform numbers supplied by a hostile RNG stub or observed by an RNG spy",
         "Observed executions over a boundary catalogue of (index, bounds) incl. index exactly 1 and within 1e-12..1e-1 of 1, narrow and full bounds, plus 300..3000 random configurations, each with hostile u (0, denormals, 1-2^-53, 1), grids and real draws; every value is judged against the exact CDF.",
         "Trusted: python decimal. Tolerance: |F-u| <= 1e-9, or log-energy within 1e-12 + 1e-14/|1-index| of the exact image (representability / conditioning of the closed form).",
         "5 (C12)",
     ),
     "C18": (
         "exploration",
-        "round-trip monitors on the real NssGrid reader/writers (HDF5, FITS) judged by a harness-side comparison, reference blend for slicing, plateau-aware bracket oracle for row interpolation, exhaustive scan of every shipped table against raw h5py content",
-        "300..4000 random grids (1-4 dims, 9 dtypes, hostile axis names incl. case-only differences) through both formats; every node and two interior coordinates of every axis sliced by index and by name; 2e4..6e5 monotone rows with plateaus incl. exact-node queries; every node of all shipped tables checked against the samplers' preconditions.",
+        "round-trip monitors on the real NssGrid reader/writers (HDF5, FITS) judged by a harness-side comparison, reference blend for slicing, plateau-aware bracket oracle for row interpolation over the closed row range with node steps of every scale (1e-17..1), overwrite / multi-path sequences on one file, exhaustive scan of every shipped table against raw h5py content",
+        "300..4000 random grids (1-4 dims, 9 dtypes, hostile axis names incl. case-only differences) through both formats; every node and two interior coordinates of every axis sliced by index and by name; 2e4..6e5 monotone rows with plateaus, narrow brackets, bracket mid-points, exact-node and first/last-node queries; every node of all shipped tables checked against the samplers' preconditions.",
         "Trusted: h5py, astropy.io.fits. Axis names are restricted to what both formats can carry (no '/', no leading/trailing blanks, ASCII). Slicing along a length-1 axis is not exercised.",
         "5 (C18)",
     ),
     "C19": (
         "exploration",
-        "runtime monitors on the real functions: round-trip / monotonicity / endpoint oracles, icontract post-conditions, independent per-layer reference, bit comparison of the two copies",
+        "runtime monitors on the real functions: round-trip / monotonicity / endpoint oracles, icontract post-conditions, independent per-layer reference, bit comparison of the two copies, float32 / int64 pressures against the same numbers as doubles",
         "Observed executions of both shipped copies on 10^5..10^6 altitudes and pressures, including every double within 64 ulps of each of the seven layer boundaries (enumerated), scalar/0-d/2-d call forms and the endpoints; every stated bound (1e-6 km, 1e-6 relative, 3e-7 steps) is asserted on each value. Held-on-observed, not a proof: the input space is all doubles in a range.",
         "Trusted: numpy/libm elementary functions; the independent reference uses the published 1976 layer constants. Integer-typed inputs are observed but not judged.",
         "5 (C19)",
